@@ -109,12 +109,16 @@ var c07Queries = []string{
 	"{ ping }", "query { ping }", "{ping}", "query Q { ping }", "{ echo(s: \"x\") }", "query($s: String){ echo(s: $s) }",
 	"query A { ping } query B { echo(s: \"b\") }", "{ user(id: \"1\") { id name } }", "mutation { inc }",
 	"mutation($f: Upload){ upload(file: $f) }", "mutation($fs: [Upload]){ upload(files: $fs) }",
+	// corner-case schema shapes: an interface nothing implements, abstract types, root __typename
+	"{ ghost { x } }", "{ ghost { __typename } }", "{ ghost { ... on Ghost { x } } }", "{ __typename }", "{ __typename ping }",
+	"{ named { name } }", "{ thing { __typename ... on User { name } } }", "{ named { ... on User { id } } }",
 	// invalid against the schema, or not GraphQL at all
 	"{ nope }", "{ ping { x } }", "{ ping", "}", " ", "query", "{ echo(s: 1) }", "subscription { x }", "{ user { id } }",
 	"fragment F on Query { ping }", "{ ...F }", "query($s: Nope){ echo(s: $s) }", "\u0000", "[", "{ \"ping\" }",
 }
 
-var c07ValidQueries = []string{"{ ping }", "query Q { ping }", "{ echo(s: \"x\") }", "query($s: String){ echo(s: $s) }", "mutation { inc }", "{ user(id: \"1\") { id name } }"}
+var c07ValidQueries = []string{"{ ping }", "query Q { ping }", "{ echo(s: \"x\") }", "query($s: String){ echo(s: $s) }", "mutation { inc }", "{ user(id: \"1\") { id name } }",
+	"{ ghost { x } }", "{ ghost { __typename } }", "{ __typename }", "{ named { name } }", "{ thing { __typename ... on User { name } } }"}
 
 var c07ContentTypes = []string{"application/json", "text/plain", "", "application/graphql", "application/json; charset=utf-8",
 	"application/json;charset=utf-8", "text/plain; charset=us-ascii", "APPLICATION/JSON", "application/json ; charset=utf-8",
